@@ -1941,6 +1941,10 @@ class Interp:
                 return
         elif ty.k == "any":
             st.oblige("safety", f"attr_of_nonobject.{attr}", smt.is_ref(base.t), line)
+        elif ty.k == "none":
+            # the value is None on every path reaching here: the store raises AttributeError
+            st.oblige("safety", f"none_deref.{attr}", z3.BoolVal(False), line)
+            raise PathEnd()
         else:
             raise Refuse(f"attribute store on value of type {ty}")
         st.setf(smt.rid(base.t), attr, self.to_sv(v).t)
